@@ -390,7 +390,7 @@ def run_conv(spec, rec):
             rec.case(("conv", method, a, b), nontrivial=a != b)
             rec.observe("conv_methods", method)
             ctx = {"src": a, "dst": b, "value": v, "error": e, "method": method}
-            fields = {"kind": "multiplicative", "method": method}
+            fields = {"kind": "multiplicative"}
             try:
                 m = M(v, e, a)
                 r = do_convert(env, m, b, method)
@@ -438,7 +438,7 @@ def run_convx(spec, rec):
                 rec.case(("conv", method, a, b), nontrivial=a != b)
                 rec.observe("conv_offset_kinds", f"{ka}->{kb}")
                 ctx = {"src": a, "dst": b, "value": v, "error": e, "method": method}
-                fields = {"kind": f"{ka}->{kb}", "method": method}
+                fields = {"kind": f"{ka}->{kb}"}
                 try:
                     m = M(v, e, a)
                     r = do_convert(env, m, b, method)
@@ -506,7 +506,7 @@ def run_convx(spec, rec):
                 rec.observe("conv_family", meth)
                 ctx = {"unit": c, "value": v, "error": e, "method": meth}
                 isoff = c.startswith("degree_")
-                fields = {"kind": "offset" if isoff else "multiplicative", "method": meth}
+                fields = {"kind": "offset" if isoff else "multiplicative", "family": name.replace("ito", "to")}
                 try:
                     pq = reg.Quantity(v, c)
                     m = reg.Measurement(v, e, c)
@@ -695,6 +695,8 @@ def pick_units(env, rng, op, lk, rk):
             ru = {}
         else:
             ru = {} if rng.random() < 0.8 else dict(zip(rng.sample(rng.choice(big), 2), (1, -1)))
+            if ru and any(env.fac[k] < 0 for k in ru):
+                ru = {}     # negative-scale units (electron_g_factor) as exponent units: not the topic
         if lk in "Nu":
             return {}, ru, "number-base"
         r = rng.random()
@@ -815,6 +817,9 @@ def run_binary(spec, rec):
             rec.observe("arith_sigma_kinds", f"{op}:{lk}:{rk}")
         if i % 400 == 0:
             rec.sample({"binary": ctx, "got": repr(got)})
+    if rec.counters.get("skipped_model_nominal_disagrees_with_plain", 0) > 0.01 * spec["n"]:
+        rec.inconc("the written propagation model disagrees with the plain-quantity nominal values in "
+                   ">1% of the binary cases: the unit rules of plain arithmetic changed under the oracle")
     # ---- same operand on both sides: full correlation ------------------------------------------
     from harness.c19_text import D
     for i in range(max(50, spec["n"] // 20)):
@@ -1373,6 +1378,12 @@ def run_format(spec, rec):
                         continue
                     rec.observe("format_rendered_forms", f"{fam}:{rd['form']}:{'exp' if rd['exp'] else ''}"
                                                          f"{':pct' if rd['percent'] else ''}")
+                    if rd["form"] != "shorthand":
+                        marker = {"D": " +/- ", "C": "+/-", "P": " ± ", "H": " &plusmn; ", "L": r" \pm ",
+                                  "Lx": " +- "}[fam]
+                        if marker not in num or (fam == "C" and " +/- " in num):
+                            rec.violation("format-plus-minus-sign-of-the-family", dict(wit, out=out), **fields)
+                            continue
                     if ("%" in ms) != rd["percent"]:
                         rec.violation("format-percent", dict(wit, out=out), **fields)
                         continue
